@@ -9,7 +9,7 @@ from ..core import rule
 from ..dataflow import DefUse
 from ..program import AnalysisError, dotted, src
 from ..core import walk_local  # inline-aware
-from .common import handler_catching, handler_body_nodes, translation, where
+from .common import raise_targets, handler_catching, handler_body_nodes, translation, where
 from .storelib import facts, node_desc, StoreFacts
 from .c09 import BARE, TREE, _commit_nodes, in_locked_index
 from .c01 import response_status, return_status
@@ -106,7 +106,7 @@ def l0(ctx):
         fi = ctx.own_method(cq, nm)
         for n in import_call_nodes(ctx, fi):
             h, raises, rets = translation(ctx, fi, n, "LockedError")
-            ok = any(r.extra.get("exc") == "ResourceLocked" for r in raises)
+            ok = any(r.extra.get("exc") == "ResourceLocked" or any(nm_ == "ResourceLocked" for nm_, _a in raise_targets(r, "LockedError")) for r in raises)
             obs.append(ctx.ob(ok, fi.qualname, where(fi, n), "LockedError -> ResourceLocked", "LockedError becomes ResourceLocked",
                               "LockedError from store.import_one is not translated to ResourceLocked in %s" % fi.short))
     for q in ("xandikos.webdav.PutMethod.handle", "xandikos.webdav.PostMethod.handle"):
